@@ -115,6 +115,7 @@ pub fn run_isolated(kind: &str, tier: &str, total: usize, workers: usize, extra:
         let mut out = vec![];
         let mut next = start;
         while next < end {
+            let started_at = next;
             let mut cmd = Command::new(&exe);
             cmd.arg("worker").arg(kind).arg(tier).arg(next.to_string()).arg(end.to_string()).args(extra);
             cmd.stdout(Stdio::piped()).stderr(Stdio::piped());
@@ -154,6 +155,10 @@ pub fn run_isolated(kind: &str, tier: &str, total: usize, workers: usize, extra:
                     let tail: String = err.lines().rev().take(6).collect::<Vec<_>>().into_iter().rev().collect::<Vec<_>>().join(" | ");
                     out.push(CaseOut { idx, verdict: "DIED".into(), detail: format!("worker process ended with {} while evaluating this case; stderr tail: {}", status, tail) });
                     next = idx + 1;
+                }
+                None if status.success() && next > started_at => {
+                    // the worker asked for a restart after a case that left it in a bad state
+                    continue;
                 }
                 None => {
                     out.push(CaseOut { idx: next, verdict: "MACHINERY".into(), detail: format!("worker ended with {} outside any case: {}", status, err.lines().last().unwrap_or("")) });
